@@ -12,10 +12,12 @@ import random
 from harness import absprog, core, regalloc_trace, watchdog
 from harness.tlc import MachineryError
 
-TRACE_CFG = """INIT Init
+TRACE_CFG = """CONSTANT MaxStates = %d
+INIT Init
 VIEW View
 ALIAS Shown
 NEXT Next
+CONSTRAINT Budget
 CHECK_DEADLOCK FALSE
 INVARIANT ReadsSeeLatestDef
 INVARIANT NoSharing
@@ -27,13 +29,17 @@ INVARIANT JumpTargetsInList
 INVARIANT EveryNameLocated
 INVARIANT BlocksWellFormed
 INVARIANT RemovedExactly
+INVARIANT RoundsChain
 """
 MC_CFG = """CONSTANT MaxLen = %d
 CONSTANT Menu = "%s"
 INIT Init
 NEXT Next
+VIEW View
 CHECK_DEADLOCK FALSE
 INVARIANT ProperColouringIsAccepted
+INVARIANT CorrectRewriteIsAccepted
+INVARIANT IncrementalNoSharingIsNoSharing
 INVARIANT LivenessIsPathLiveness
 INVARIANT TypeOK
 """
@@ -41,6 +47,7 @@ MC_WITNESS_CFG = """CONSTANT MaxLen = %d
 CONSTANT Menu = "%s"
 INIT Init
 NEXT Next
+VIEW View
 CHECK_DEADLOCK FALSE
 INVARIANT %s
 """
@@ -259,7 +266,7 @@ class Encoder:
             if rid + 1 in nm:
                 colour[nm[rid + 1] - 1] = nm.get(c, 0) if c else 0
         return {"key": key, "mode": "colour", "arch": self.order.index(rec["arch"]) + 1, "nn": nn, "W": W, "S": S,
-                "colour": colour, "blocks": [],
+                "colour": colour, "blocks": [], "chain": chain_pairs(rec),
                 "pre": [im.get(x, 0) for x in rec["premove"]], "post": [im.get(x, 0) for x in rec["postmove"]]}
 
     def spill_case(self, key, rec, rw):
@@ -272,13 +279,31 @@ class Encoder:
         blocks = [[1 if b["k"] == "load" else 2, nm[b["reg"]], b["slot"], [im.get(x, 0) for x in b["ins"]]]
                   for b in rw["blocks"]]
         return {"key": key, "mode": "spill", "arch": self.order.index(rec["arch"]) + 1, "nn": nn, "W": W, "S": S,
-                "colour": [], "blocks": blocks, "pre": [], "post": []}
+                "colour": [], "blocks": blocks, "chain": [], "pre": [], "post": []}
 
 
-def chain_ok(rec):
-    """Not a verdict: tells the encoder whether the recorded rounds / rewrites line up as a chain, so
-    that the engine knows which snapshot pairs to hand to TLC (every one of them is handed over)."""
-    return True
+def sig(snapshot):
+    """Identity and operands of every instruction of a snapshot (raw recorder ids)."""
+    return [[e["i"], e["u"], e["d"]] for e in snapshot]
+
+
+def chain_pairs(rec):
+    """Pairs of observations of frame.instructions between which nothing may have happened:
+    rounds[k] = list before the first rewrite of round k, after(rewrite j) = before(rewrite j+1),
+    after(last rewrite of round k) = rounds[k+1].  TLC compares them (clause RoundsChain)."""
+    pairs = []
+    rws = rec["rewrites"]
+    for k, rnd in enumerate(rec["rounds"]):
+        mine = [rw for rw in rws if rw["round"] == k + 1]
+        prev = sig(rnd)
+        for rw in mine:
+            pairs.append([prev, sig(rw["before"])])
+            prev = sig(rw["after"])
+        if k + 1 < len(rec["rounds"]):
+            pairs.append([prev, sig(rec["rounds"][k + 1])])
+        elif mine:
+            pairs.append([prev, []])   # rewrites after the last recorded round: never legal
+    return pairs
 
 
 def build_cases(ctx, recs):
@@ -322,31 +347,109 @@ def explain(meta_entry, case, st, clause):
         str(st.get("cur"))[:300], str(st.get("holds"))[:300])
 
 
-def judge(ctx, payload, meta, label, workers=8):
+def controls(payload):
+    """Negative controls (DESIGN 3.9 ii): recorded cases with ONE field corrupted; TLC must reject them.
+    Returns [(case, kind)].  Python only corrupts the data; whether it is rejected is TLC's verdict."""
+    import copy
+
+    out = []
+    count = {"colour": 0, "move": 0, "slot": 0}
+    archs = payload["archs"]
+    for c in payload["cases"]:
+        np_ = archs[c["arch"] - 1]["np"]
+        if c["mode"] == "colour":
+            col = c["colour"]
+            if count["colour"] < 4:
+                for e in c["S"]:
+                    vs = [u for u in e[1] if u > np_]
+                    if not e[5] and len(set(vs)) >= 2 and col[vs[0] - 1] != col[vs[1] - 1] and col[vs[1] - 1]:
+                        k = copy.deepcopy(c)
+                        k["colour"][vs[0] - 1] = col[vs[1] - 1]   # two operands of one instruction share a register
+                        k["key"] = "control:colour:" + c["key"]
+                        out.append((k, "colour"))
+                        count["colour"] += 1
+                        break
+            if count["move"] < 4:
+                loc = lambda r: r if r <= np_ else col[r - 1]
+                for n, e in enumerate(c["S"]):
+                    if e[5] and len(e[1]) == 1 and len(e[2]) == 1 and loc(e[1][0]) != loc(e[2][0]) and n < 40:
+                        k = copy.deepcopy(c)
+                        del k["S"][n]                                # a live move between two registers "removed"
+                        k["post"] = [x for x in k["post"] if x != e[0]]
+                        k["key"] = "control:move:" + c["key"]
+                        out.append((k, "move"))
+                        count["move"] += 1
+                        break
+        elif count["slot"] < 4:
+            for n, b in enumerate(c["blocks"]):
+                if b[0] == 1:
+                    k = copy.deepcopy(c)
+                    k["blocks"][n][2] = b[2] + 7                     # the reload reads another slot
+                    k["key"] = "control:slot:" + c["key"]
+                    out.append((k, "slot"))
+                    count["slot"] += 1
+                    break
+    return out
+
+
+CONTROL_CLAUSES = {"colour": {"ReadsSeeLatestDef", "NoSharing"}, "move": {"CoalescedSameLoc"},
+                   "slot": {"ReadsSeeLatestDef"}}
+
+
+def judge(ctx, payload, meta, label, workers=8, cap=None, with_controls=True, depth=0):
     """Run AllocCheck_Trace over the cases; map every error to its case."""
-    if not payload["cases"]:
-        return None
-    path = ctx.trace_file(payload)
-    res = ctx.tlc("AllocCheck_Trace", TRACE_CFG, label=label, env={"TRACE_FILE": path}, continue_=True,
-                  workers=workers, heap="12g")
     import os
 
+    if not payload["cases"]:
+        return None
+    cap = cap or (4000000 if ctx.tier == "quick" else 20000000)
+    ctl = controls(payload) if with_controls else []
+    full = {"archs": payload["archs"], "cases": payload["cases"] + [c for c, _ in ctl]}
+    path = ctx.trace_file(full)
+    res = ctx.tlc("AllocCheck_Trace", TRACE_CFG % cap, label=label, env={"TRACE_FILE": path}, continue_=True,
+                  workers=workers, heap="12g")
     os.unlink(path)
-    ctx.cov["traces_validated_against_impl"] += len(payload["cases"])
+    n = len(meta)
+    if res.distinct >= cap:
+        # state cap hit: nothing can be concluded for this batch as a whole; split it
+        if n == 1:
+            ctx.cov["inconclusive_state_cap"] = ctx.cov.get("inconclusive_state_cap", 0) + 1
+            ctx.note("state cap %d reached for %s: inconclusive" % (cap, meta[0][0]))
+            return res
+        half = n // 2
+        for lo, hi in ((0, half), (half, n)):
+            judge(ctx, {"archs": payload["archs"], "cases": payload["cases"][lo:hi]}, meta[lo:hi], label + "/split",
+                  workers=workers, cap=cap, with_controls=False, depth=depth + 1)
+        return res
+    ctx.cov["traces_validated_against_impl"] += n
     seen = set()
+    rejected = {}
     for e in res.errors:
         st = e.last
         f = st.get("f")
-        if e.kind != "invariant" or not isinstance(f, int) or f < 1 or f > len(meta):
+        if e.kind != "invariant" or not isinstance(f, int) or f < 1 or f > len(full["cases"]):
             raise MachineryError("unexpected TLC error in AllocCheck run: %s\n%s" % (e, e.text[:1500]))
+        if f > n:
+            kind = ctl[f - n - 1][1]
+            if e.name in CONTROL_CLAUSES[kind]:
+                rejected[kind] = rejected.get(kind, 0) + 1
+            continue
         m = meta[f - 1]
         vkey = "%s:%s" % (m[0], e.name)
         if vkey in seen:
             continue
         seen.add(vkey)
-        ctx.violation(vkey, explain(m, payload["cases"][f - 1], st, e.name),
-                      {"key": m[0], "source": m[2], "clause": e.name, "case": payload["cases"][f - 1],
+        case = payload["cases"][f - 1]
+        ctx.violation(vkey, explain(m, case, st, e.name),
+                      {"key": m[0], "source": m[2], "clause": e.name, "arch": payload["archs"][case["arch"] - 1],
+                       "case": case, "texts": [x["t"] for x in (m[3]["after"] if m[3] else m[1]["rounds"][-1])],
+                       "regs": [x["n"] for x in m[1]["regs"]],
                        "state": {k: str(v)[:600] for k, v in st.items()}})
+    for kind in sorted({k for _, k in ctl}):
+        ctx.cov["controls_" + kind] = ctx.cov.get("controls_" + kind, 0) + sum(1 for _, k in ctl if k == kind)
+        ctx.cov["controls_rejected_" + kind] = ctx.cov.get("controls_rejected_" + kind, 0) + rejected.get(kind, 0)
+        if not rejected.get(kind):
+            raise MachineryError("negative control: none of the corrupted '%s' cases was rejected by AllocCheck" % kind)
     return res
 
 
@@ -373,7 +476,7 @@ class Engine:
             plan = {"w64": (40, 60, 40), "w32": (20, 30, 30), "w32only": (10, 25, 15), "w16": (6, 10, 10)}
             levels = ("0", "2")
         else:
-            plan = {"w64": (3, 6, 4), "w32": (1, 2, 2), "w32only": (1, 2, 1), "w16": (1, 2, 1)}
+            plan = {"w64": (2, 5, 3), "w32": (1, 2, 1), "w32only": (1, 1, 1), "w16": (1, 1, 1)}
             levels = ("2",)
         recs = record_corpus(ctx, sources(ctx, plan), levels)
         self.check_records(ctx, recs)
@@ -396,16 +499,30 @@ class Engine:
         ctx.cov["spill_rewrites"] = ctx.cov.get("spill_rewrites", 0) + nspill
 
     def model_check(self, ctx, thorough):
-        maxlen, menu = (4, "small") if thorough else (3, "full")
+        maxlen, menu = (3, "small") if thorough else (2, "full")
         res = ctx.tlc("AllocCheck_MC", MC_CFG % (maxlen, menu), label="AllocCheck self-test", workers=8)
         for e in res.errors:
             raise MachineryError("AllocCheck self-test fails in the specification itself: %s\n%s" % (e, e.text[:1500]))
-        # anti-vacuity: the machine must be able to reject (each clause has a witness among improper colourings)
-        for inv in ("ReadsSeeLatestDef", "NoSharing", "CoalescedSameLoc"):
-            r = ctx.tlc("AllocCheck_MC", MC_WITNESS_CFG % (3, "full", inv), label="witness " + inv, workers=8)
+        if not thorough:
+            return   # quick tier: anti-vacuity through the negative controls of the trace run
+        # anti-vacuity: the machine must be able to reject (each clause has a witness among improper
+        # colourings / broken rewrites of the tiny menu)
+        for inv in ("ReadsSeeLatestDef", "NoSharing", "CoalescedSameLoc", "SpillReadsSeeLatestDef"):
+            r = ctx.tlc("AllocCheck_MC", MC_WITNESS_CFG % (3, "tiny", inv), label="witness " + inv, workers=8)
             if not any(e.kind == "invariant" and e.name == inv for e in r.errors):
                 raise MachineryError("AllocCheck self-test: no improper colouring violates %s (vacuous clause)" % inv)
 
     def replay(self, ctx):
+        """Re-judge exactly the recorded case of a replay file."""
         c = ctx.only.get("case") or {}
-        raise MachineryError("replay: re-run ./check C06 with VERIF_SEED=%s (case key %s)" % (ctx.only.get("seed"), c.get("key")))
+        if "case" not in c or "arch" not in c:
+            raise MachineryError("replay file has no recorded case")
+        case = dict(c["case"])
+        case["arch"] = 1
+        key = c["key"]
+        rec = {"fn": key, "arch": "?", "regs": [{"n": n} for n in c.get("regs", [])],
+               "rounds": [[{"t": t, "u": [], "d": []} for t in c.get("texts", [])]]}
+        rw = {"after": rec["rounds"][0]} if case["mode"] == "spill" else None
+        ctx.count(key)
+        judge(ctx, {"archs": [c["arch"]], "cases": [case]}, [(key, rec, c.get("source"), rw)], "replay",
+              with_controls=False)
